@@ -408,7 +408,7 @@ def cmd_check(a) -> int:
             agg["wall_s"] = round(wall_s, 2)
             aggs.append(agg)
             det_reports[engine] = det
-            all_errors += errors + [f"{engine} run {h['i']}: {h['trace']}" for h in agg["harness_errors"]]
+            all_errors += [f"{engine} run {h['i']}: {h['trace']}" for h in agg["harness_errors"]] + errors
             if det["mismatches"]:
                 all_errors.append(f"{engine}: determinism self-test failed for run indices {det['mismatches']}")
             if agg["violations"] and violation_line is None:
